@@ -24,6 +24,9 @@ def jobs(tier):
                         if (n_, d_) == (200, 3) and tier == "quick" and (nsub != 1 or order == ">"):
                             continue
                         out.append(dict(kind=kind, size=size, order=order, cplx=cplx, nsub=nsub, n=n_, d=d_, fc=fc_, sc=sc_, start=st))
+                        if (kind, size) in (("i", 2), ("f", 4)) and nsub == 1:
+                            # recording that starts on the second / third slot of its first file
+                            out.append(dict(kind=kind, size=size, order=order, cplx=cplx, nsub=nsub, n=n_, d=d_, fc=fc_, sc=sc_, start=st + 1 + (size // 4)))
     return out
 
 
